@@ -66,6 +66,61 @@ def contained(P: Project, f: FuncInfo, depth: int = 0) -> bool:
     return res
 
 
+_EXPLICIT: Dict[str, bool] = {}
+
+
+def raises_explicitly(P: Project, g: FuncInfo, depth: int = 0) -> bool:
+    """Does `g` — or a package function it calls, transitively — contain a `raise <Something>` that no enclosing handler of
+    the same function catches?  (The weaker, syntactic notion of "can raise": explicit raises only.  Used where the
+    strict every-call-may-raise model would flag ordinary total code — string comparisons, regular-expression matches.)"""
+    key = f"{P.digest()[:12]}:{g.fq}"
+    if key in _EXPLICIT:
+        return _EXPLICIT[key]
+    _EXPLICIT[key] = False
+    res = False
+
+    def caught_by(raise_node, stack) -> bool:
+        for t in stack:
+            for h in t.handlers:
+                nm = "<bare>" if h.type is None else ast.unparse(h.type)
+                if h.type is None or "Exception" in nm.split(".")[-1:] or nm in ("Exception", "BaseException"):
+                    return True
+                exc = raise_node.exc.func if isinstance(raise_node.exc, ast.Call) else raise_node.exc
+                if exc is not None and ast.unparse(exc).split(".")[-1] in nm:
+                    return True
+        return False
+
+    def rec(n, stack):
+        nonlocal res
+        if res:
+            return
+        if isinstance(n, (ast.FunctionDef, ast.AsyncFunctionDef, ast.Lambda)) and n is not g.node:
+            return
+        if isinstance(n, ast.Raise) and n.exc is not None and not caught_by(n, stack):
+            res = True
+            return
+        if isinstance(n, ast.Call) and depth < 4:
+            h = P.resolve_call(g, n)
+            if isinstance(h, FuncInfo) and h is not g and not stack and raises_explicitly(P, h, depth + 1):
+                res = True
+                return
+        if isinstance(n, ast.Try):
+            for b in n.body:
+                rec(b, stack + [n])
+            for h in n.handlers:
+                for b in h.body:
+                    rec(b, stack)
+            for b in n.orelse + n.finalbody:
+                rec(b, stack)
+            return
+        for c in ast.iter_child_nodes(n):
+            rec(c, stack)
+
+    rec(g.node, [])
+    _EXPLICIT[key] = res
+    return res
+
+
 def fallible_except_contained(P: Project, f: FuncInfo, extra_total: Optional[Callable[[ast.Call], bool]] = None):
     """Fallibility predicate: every call/await may raise, except benign calls,
     calls of contained package functions and whatever `extra_total` accepts."""
